@@ -60,7 +60,7 @@ impl Object for Encoding {
                 }
                 Ok(Encoding { base, differences })
             }
-            Primitive::Reference(r) => Self::from_primitive(resolve.resolve(r)?, resolve),
+            Primitive::Reference(r) => Self::from_primitive(resolve.resolve_value(r)?, resolve),
             Primitive::Stream(s) => Self::from_primitive(Primitive::Dictionary(s.info), resolve),
             _ => bail!("Unknown element: {:?}", p),
         }
